@@ -10,6 +10,7 @@ import (
 
 	"github.com/hashicorp/hcl-lang/schema"
 	"github.com/hashicorp/hcl/v2"
+	"github.com/zclconf/go-cty/cty"
 )
 
 type Targets []Target
@@ -32,8 +33,69 @@ func (r Targets) Len() int {
 }
 
 func (r Targets) Less(i, j int) bool {
-	return r[i].LocalAddr.String() < r[j].LocalAddr.String() ||
-		r[i].Addr.String() < r[j].Addr.String()
+	// Compare lexicographically by (LocalAddr, Addr) so that the ordering
+	// is a strict weak ordering, as sort.Sort requires; otherwise the
+	// result depends on the order in which targets were appended.
+	iLocal, jLocal := r[i].LocalAddr.String(), r[j].LocalAddr.String()
+	if iLocal != jLocal {
+		return iLocal < jLocal
+	}
+	iAddr, jAddr := r[i].Addr.String(), r[j].Addr.String()
+	if iAddr != jAddr {
+		return iAddr < jAddr
+	}
+
+	// Targets of the same address (e.g. a type-less and a type-aware target
+	// of the same block) are ordered by position, type, scope and name
+	// to keep the order independent of the order of collection.
+	if c := compareRangePtrs(r[i].RangePtr, r[j].RangePtr); c != 0 {
+		return c < 0
+	}
+	if c := compareRangePtrs(r[i].DefRangePtr, r[j].DefRangePtr); c != 0 {
+		return c < 0
+	}
+	iType, jType := typeSortKey(r[i].Type), typeSortKey(r[j].Type)
+	if iType != jType {
+		return iType < jType
+	}
+	if r[i].ScopeId != r[j].ScopeId {
+		return r[i].ScopeId < r[j].ScopeId
+	}
+	return r[i].Name < r[j].Name
+}
+
+func compareRangePtrs(a, b *hcl.Range) int {
+	switch {
+	case a == nil && b == nil:
+		return 0
+	case a == nil:
+		return -1
+	case b == nil:
+		return 1
+	}
+	if c := strings.Compare(a.Filename, b.Filename); c != 0 {
+		return c
+	}
+	if a.Start.Byte != b.Start.Byte {
+		if a.Start.Byte < b.Start.Byte {
+			return -1
+		}
+		return 1
+	}
+	if a.End.Byte != b.End.Byte {
+		if a.End.Byte < b.End.Byte {
+			return -1
+		}
+		return 1
+	}
+	return 0
+}
+
+func typeSortKey(typ cty.Type) string {
+	if typ == cty.NilType {
+		return ""
+	}
+	return typ.GoString()
 }
 
 func (r Targets) Swap(i, j int) {
